@@ -139,6 +139,19 @@ def signInternal (m : Mode) (O : Oracles) (ctest : Bool) (p : ParamSet) (fuel : 
   let sig ← sigEncode m ctest p cTilde zmodq h
   pure { sig := sig, iters := it }
 
+/-- `w'_Approx = invNTT(A_hat ∘ NTT(z) - NTT(c) ∘ NTT(t1 2^d))` of Algorithm 8 step 9, as the crate computes it:
+    lazy forward transform, unreduced matrix-vector accumulation, Montgomery product with the key precompute -/
+def wApproxOf (m : Mode) (aHat : List (List Poly)) (z : List Poly) (c : Poly) (t1d2 : List Poly) : M (List Poly) := do
+  let zHat ← ntt m z
+  let az ← matVecMul m aHat zHat
+  let chats ← ntt m [c]
+  let chat ← idx "ml_dsa.rs:verify_internal:ntt(&[c])[0]" chats 0
+  let diff ← zipWithM (fun ap tp => zipWith3M (fun a c t => do
+    let pr ← arith .i64 m "ml_dsa.rs:verify_internal:c_hat*t1" (c * t)
+    let r ← mont_reduce m pr
+    arith .i32 m "ml_dsa.rs:verify_internal:az-ct1" (a - r)) ap chat tp) az t1d2
+  invNtt m diff
+
 /-- Algorithm 8 `verify_internal` (CTEST only reaches `expand_a`; callers pass `false`) -/
 def verifyInternal (m : Mode) (O : Oracles) (ctest : Bool) (p : ParamSet) (pk : PublicKey)
     (msg sig ctx oid phm : List Nat) (nist : Bool) : M Bool := do
@@ -151,15 +164,7 @@ def verifyInternal (m : Mode) (O : Oracles) (ctest : Bool) (p : ParamSet) (pk : 
   let mu := muOf O domPure_verify domHash_verify pk.tr msg ctx oid phm nist
   let c ← sampleInBall m O false p.tau cTilde
   let aHat ← expandA m O ctest p pk.rho
-  let zHat ← ntt m z
-  let az ← matVecMul m aHat zHat
-  let chats ← ntt m [c]
-  let chat ← idx "ml_dsa.rs:verify_internal:ntt(&[c])[0]" chats 0
-  let diff ← zipWithM (fun ap tp => zipWith3M (fun a c t => do
-    let pr ← arith .i64 m "ml_dsa.rs:verify_internal:c_hat*t1" (c * t)
-    let r ← mont_reduce m pr
-    arith .i32 m "ml_dsa.rs:verify_internal:az-ct1" (a - r)) ap chat tp) az pk.t1d2
-  let wApprox ← invNtt m diff
+  let wApprox ← wApproxOf m aHat z c pk.t1d2
   let w1 ← zipWithM (fun hp wp => zipWithM (fun hh r => use_hint m p.gamma2 hh r) hp wp) h wApprox
   let w1t ← w1Encode m p w1 p.w1Len
   let cTildeP := O.h (mu ++ w1t) p.lambdaDiv4
